@@ -38,6 +38,14 @@ class CapturingClient:
         w.ev('lineage', self.proc.name, self.proc.inc, et, tname.split(':')[-1])
         if w.keep_lineage_events:
             w.lineage_raw.append((self.proc.key, et, event))
+        den = (w.sc.get('lineage') or {}).get('emit_faults')
+        if den and cur is not None and not cur.is_main and w.choice.chance('lfault', 1, den):
+            # the backend has the event but its answer is lost (read timeout of the HTTP transport): emit() raises
+            w.ostats['c18_emit_response_lost'] += 1
+            w.faults_fired['lineage_emit_response_lost'] = w.faults_fired.get('lineage_emit_response_lost', 0) + 1
+            w.ostats['c18_emit_response_lost_' + et] += 1
+            w.ev('lineage_fault', self.proc.name, self.proc.inc, et, 'response_lost')
+            raise TimeoutError('read timed out (simulated: response of the lineage backend lost)')
 
 
 class _SimUuid:
